@@ -13,8 +13,8 @@ def M(name, bound, tier="quick", timeout=600):
                 funcs=["substringsearch::Matcher::new", "substringsearch::Matcher::start", "substringsearch::Search::next", "nevec::Nevec::{with_capacity,push,len,index}"], bound=bound)
 
 
-def N(name, bound, tier="thorough", timeout=1500):
-    return dict(engine="A", module="c20_interner", name=name, features=F, env=ENV, tier=tier, timeout=timeout,
+def N(name, bound, tier="thorough", timeout=1500, **kw):
+    return dict(**kw, engine="A", module="c20_interner", name=name, features=F, env=ENV, tier=tier, timeout=timeout,
                 funcs=["interner::Interner::{get_or_intern,get,get_internal,resolve}", "interner::populate_dedup_map", "interner::Key for NonZeroU32"],
                 bound=bound, stubs=[SHIM])
 
@@ -36,6 +36,7 @@ PROP = {
     "assumptions": ["iteration order of the map stand-in is slot order (one legal HashMap order); order-dependence is not explored"],
     "obligations": [
         G("c20_grouping_hashmap_merged4", "every history of 4 operations over {begin, end, insert local, insert global} x 2 keys x 2 values, depth <= 2"),
+        G("c20_grouping_hashmap_prefix_local_then4", "from inside an open group with one local binding (key, value symbolic): every history of 4 further operations, depth <= 2 (reaches 6-deep scenarios such as local/begin/global/end/end)", timeout=1500),
         G("c20_grouping_iter_all_rebuild2", "every history of 2 operations, then iter_all -> rebuild -> close all groups", tier="thorough", timeout=1800, funcs=GM + ["GroupingContainer::iter_all", "IterAll::{new,next}"]),
         G("c20_grouping_hashmap_merged5", "every history of 5 operations, depth <= 2", tier="thorough", timeout=1200),
         G("c20_grouping_hashmap_merged6", "every history of 6 operations, depth <= 2", tier="thorough", timeout=1800),
@@ -47,6 +48,6 @@ PROP = {
         M("c20_matcher_m5_n12_abc", "pattern length 5, text length 12, alphabet {a,b,c}: all 3^17 instances", tier="thorough", timeout=1800),
         N("c20_interner_two_collide_22", "two strings of length 2 over {a,b}, all hashes collide", tier="quick", timeout=900),
         N("c20_interner_two_collide_12", "strings of length 1 and 2, all hashes collide", tier="quick", timeout=900),
-        N("c20_interner_all_collide_121", "three strings of lengths 1,2,1, all hashes collide (alone: 561 s, 8 GB)", timeout=1800),
+        N("c20_interner_all_collide_121", "three strings of lengths 1,2,1, all hashes collide (alone: 561 s, 8 GB)", timeout=1800, mem_gb=28),
     ],
 }
